@@ -17,6 +17,8 @@ pub enum WKind {
     File,
     Syslog3164,
     Syslog5424,
+    /// RFC 3164 lines over a TCP connection to a listener on the loopback interface
+    SyslogTcp,
 }
 
 #[derive(Clone, Debug, Serialize, Deserialize)]
@@ -164,6 +166,39 @@ fn execute(case: &Case, sc_dir: &Path, with_dup: bool) -> Result<Routed, String>
                 l = l.add_writer(w.name.clone(), Box::new(flw));
                 obs.push(Obs::File(d.join("out.log")));
             }
+            WKind::SyslogTcp => {
+                let listener = std::net::TcpListener::bind("127.0.0.1:0").map_err(|e| format!("bind tcp: {e}"))?;
+                let addr = listener.local_addr().map_err(|e| format!("local_addr: {e}"))?;
+                let stop = std::sync::Arc::new(std::sync::atomic::AtomicBool::new(false));
+                let stop2 = stop.clone();
+                // the reader collects until it is told to stop and nothing more arrives
+                let reader = std::thread::spawn(move || {
+                    use std::io::Read;
+                    let mut all = Vec::new();
+                    if let Ok((mut s, _)) = listener.accept() {
+                        let _ = s.set_read_timeout(Some(Duration::from_millis(20)));
+                        let mut buf = vec![0u8; 65536];
+                        loop {
+                            match s.read(&mut buf) {
+                                Ok(0) => break,
+                                Ok(n) => all.extend_from_slice(&buf[..n]),
+                                Err(_) => {
+                                    if stop2.load(std::sync::atomic::Ordering::SeqCst) {
+                                        break;
+                                    }
+                                }
+                            }
+                        }
+                    }
+                    String::from_utf8_lossy(&all).split_terminator('\n').map(str::to_string).collect::<Vec<String>>()
+                });
+                let sw = SyslogWriter::builder(SyslogConnection::try_tcp(addr).map_err(|e| format!("connect tcp: {e}"))?, SyslogLineHeader::Rfc3164, SyslogFacility::LocalUse0)
+                    .max_log_level(lf(w.ceiling))
+                    .build()
+                    .map_err(|e| format!("syslog build: {e}"))?;
+                l = l.add_writer(w.name.clone(), sw);
+                obs.push(Obs::Syslog(stop, reader));
+            }
             WKind::Syslog3164 | WKind::Syslog5424 => {
                 let sock = sc_dir.join(format!("s{i}.sock"));
                 let rx = std::os::unix::net::UnixDatagram::bind(&sock).map_err(|e| format!("bind: {e}"))?;
@@ -306,7 +341,7 @@ impl Property for P {
             mspec_strat(),
             prop::collection::btree_map(
                 name_pool(),
-                (prop_oneof![3 => Just(WKind::Custom), 2 => Just(WKind::File), 1 => Just(WKind::Syslog3164), 1 => Just(WKind::Syslog5424)], 0u8..6),
+                (prop_oneof![6 => Just(WKind::Custom), 4 => Just(WKind::File), 2 => Just(WKind::Syslog3164), 2 => Just(WKind::Syslog5424), 1 => Just(WKind::SyslogTcp)], 0u8..6),
                 0..5,
             ),
             prop::option::weighted(0.25, (0u8..7, 0u8..7)),
